@@ -86,6 +86,7 @@ pub fn run(kind: &str, args: &[String]) -> i32 {
         "xver" => xver(&mut sink, &opts),
         "uuid" => uuids(&mut sink, &opts),
         "threads" => threads(&mut sink, &opts),
+        "frameiter" => frameiter(&mut sink, &opts),
         _ => {
             eprintln!("unknown trace kind {kind}");
             return 2;
@@ -1066,6 +1067,44 @@ fn threads(sink: &mut Sink, o: &Opts) {
         });
         for ev in results.into_inner().unwrap() {
             sink.emit(ev);
+        }
+    }
+}
+
+/// C01/C03: every next() call of the real frame iterators, in one ordered log
+fn frameiter(sink: &mut Sink, o: &Opts) {
+    use crate::handles::{parse_query, with_handle, HANDLES};
+    let mut rng = Rng::new(o.seed);
+    let per: usize = opt_value(o, "--queries").map(|s| s.parse().unwrap()).unwrap_or(60);
+    let mut sessions: Vec<Vec<u8>> = vec![];
+    for f in &o.files {
+        sessions.push(std::fs::read(f).expect("corpus file"));
+    }
+    let cfg = gen::MapCfg { max_classes: 4, max_members: 8, wild: false, noise: true };
+    for _ in 0..o.n {
+        sessions.push(gen::mapping(&mut rng, &cfg));
+    }
+    for (sid, src) in sessions.iter().enumerate() {
+        sink.emit(json!({"t": "load", "sid": sid + 1, "src": enc::bytes(src)}));
+    }
+    for (sid, src) in sessions.iter().enumerate() {
+        let uni = gen::universe(src);
+        let qs: Vec<Value> = (0..per)
+            .map(|_| {
+                let focus = if rng.chance(1, 3) { "params" } else { "frame" };
+                gen::query(&mut rng, &uni, focus)
+            })
+            .collect();
+        let parsed: Vec<_> = qs.iter().map(parse_query).collect();
+        for h in HANDLES {
+            let res = with_handle(h, src, |handle| parsed.iter().map(|q| handle.step_frames(q)).collect::<Vec<_>>());
+            let Ok(res) = res else { continue };
+            for (k, yields) in res.into_iter().enumerate() {
+                sink.emit(json!({"t": "begin", "sid": sid + 1, "handle": h, "frame": qs[k]["frame"]}));
+                for y in yields {
+                    sink.emit(json!({"t": "next", "got": y}));
+                }
+            }
         }
     }
 }
